@@ -200,6 +200,12 @@ func RunCase(c *Case, prop string, judgeHandOver bool) *Result {
 		}
 	}
 	tr("start: %s", w.signature())
+	for i := range c.Targets {
+		if c.Targets[i].Hang && !c.Targets[i].Healthy {
+			res.class("unhealthy-target-that-does-not-answer-at-all")
+			break
+		}
+	}
 	if len(c.Init) > 0 {
 		dup, pend := false, false
 		seen := map[uint64]int{}
